@@ -235,6 +235,44 @@ def TObj.run (o : TObj) : List HOp → List HObs
     let (o', x) := o.step op
     { lines := o'.tb.lines, str := o'.str, extra := x } :: TObj.run o' ops
 
+/-! ### several TextBlock / Comment objects that are handed to one another
+
+`a.append(b)`, `a + b`, `TextBlock(b)`, `a.append(b.lines)`: the receiving block copies the *lines* of the
+other one; the two objects stay independent afterwards (no shared buffer). -/
+
+inductive HOp2
+  | on (o : Nat) (op : HOp)                       -- an operation of the single-object repertoire on object `o`
+  | appendRef (o j : Nat)                         -- `objs[o].append(objs[j])` / `objs[o] += objs[j]`
+  | addRef (o j : Nat)                            -- `objs[o] + objs[j]` (a new block; nothing changes)
+  | newFrom (o j : Nat) (isComment : Bool)        -- `objs[o] = TextBlock(objs[j])` / `Comment(objs[j])`
+  | appendLinesOf (o j : Nat)                     -- `objs[o].append(objs[j].lines)`
+  deriving Repr, Inhabited
+
+def objAt (objs : List TObj) (i : Nat) : TObj := objs.getD i {}
+
+/-- a block object as content of another block: `isinstance(content, TextBlock)` (a Comment is one too) -/
+def TObj.asBlock (o : TObj) : Content := .tb o.tb.header o.tb.lines
+
+def step2 (objs : List TObj) : HOp2 → List TObj × Option (List Str)
+  | .on o op =>
+    let (x, extra) := (objAt objs o).step op
+    (objs.set o x, extra)
+  | .appendRef o j =>
+    let x := objAt objs o
+    (objs.set o { x with tb := x.tb.append (objAt objs j).asBlock }, none)
+  | .addRef o j => (objs, some ((objAt objs o).tb.add (objAt objs j).asBlock).lines)
+  | .newFrom o j c => (objs.set o (TObj.new c (objAt objs j).asBlock), none)
+  | .appendLinesOf o j =>
+    let x := objAt objs o
+    (objs.set o { x with tb := x.tb.append (.list ((objAt objs j).tb.lines.map .str)) }, none)
+
+/-- after every step: lines and string form of EVERY object, and the extra result -/
+def run2 (objs : List TObj) : List HOp2 → List (List (List Str × Str) × Option (List Str))
+  | [] => []
+  | op :: ops =>
+    let (objs', extra) := step2 objs op
+    (objs'.map (fun o => (o.tb.lines, o.str)), extra) :: run2 objs' ops
+
 /-! ### Indentizer on arbitrary content; to_str -/
 
 def Indentizer.toList (i : Indentizer) (c : Content) : List Str := i.toListFlat (flatten false c)
